@@ -360,6 +360,8 @@ class Port(Base):
         if operator == "eq":
             return ports
         if operator == "range":
+            if not ports:
+                raise ValueError(f"invalid {operator=} with {ports=}")
             return [ports[0], ports[-1]]
         if operator == "neq":
             items: LInt = list(range(1, 65535 + 1))
@@ -367,9 +369,9 @@ class Port(Base):
                 items.remove(port)
             return items
         if operator == "gt":
-            return [ports[0] - 1]
+            return [ports[0] - 1] if ports else [65535]
         if operator == "lt":
-            return [ports[1] + 1]
+            return [ports[-1] + 1] if ports else [1]
         raise ValueError(f"invalid port {operator=}")
 
 
